@@ -470,3 +470,183 @@ Proof.
         rewrite N.eqb_refl. unfold eff_status. rewrite Em. repeat split.
     + cbn [aget]. rewrite N.eqb_refl. reflexivity.
 Qed.
+
+(* ------------------------------------------------------------------------------------------ *)
+(* 4. handle_reorged_txs *)
+
+Definition is_confirmed (s : cstatus) : bool := match s with ConfirmedIn _ => true | _ => false end.
+
+(* the node (or the memo) rejects the dispute, or accepts it and rejects the penalty *)
+Definition trk_rejected (e : N -> cstatus) (k : trk) : bool :=
+  status_rejected (e (t_dispute k)) || status_rejected (e (t_penalty k)).
+
+Definition reorg_rejected (e : N -> cstatus) (trks : list trk) (uuid : N * N) : bool :=
+  match find_trk trks uuid with None => false | Some k => trk_rejected e k end.
+
+Definition reorg_rows (e : N -> cstatus) (h : N) (us : list (N * N)) (trks : list trk) : list trk :=
+  map (fun k => if mem_uuid (trk_uuid k) us && negb (trk_rejected e k) then restamp k h false else k) trks.
+
+Definition status_upd (uuid : N * N) (h : N) (c : bool) (k : trk) : trk :=
+  if uuid_eqb (trk_uuid k) uuid then restamp k h c else k.
+
+Lemma status_upd_fields uuid h c k :
+  trk_uuid (status_upd uuid h c k) = trk_uuid k /\ t_dispute (status_upd uuid h c k) = t_dispute k /\
+  t_penalty (status_upd uuid h c k) = t_penalty k.
+Proof. unfold status_upd. destruct (uuid_eqb (trk_uuid k) uuid); repeat split. Qed.
+
+Lemma db_trks_set_status t uuid h c : db_trks (set_trk_status t uuid h c) = map (status_upd uuid h c) (db_trks t).
+Proof. reflexivity. Qed.
+
+Lemma nodup_set_status t uuid h c :
+  NoDup (map trk_uuid (db_trks t)) -> NoDup (map trk_uuid (db_trks (set_trk_status t uuid h c))).
+Proof.
+  intros H. rewrite db_trks_set_status, map_map.
+  erewrite map_ext; [exact H|]. intros k. apply status_upd_fields.
+Qed.
+
+Lemma same_uuid_same_row trks k k' :
+  NoDup (map trk_uuid trks) -> In k trks -> In k' trks -> trk_uuid k = trk_uuid k' -> k = k'.
+Proof.
+  intros Hnd Hk Hk' He. pose proof (find_trk_In_NoDup _ k Hnd Hk) as F1.
+  pose proof (find_trk_In_NoDup _ k' Hnd Hk') as F2. rewrite He in F1. congruence.
+Qed.
+
+Lemma row_of_find trks uuid k k' :
+  NoDup (map trk_uuid trks) -> find_trk trks uuid = Some k -> In k' trks -> uuid_eqb (trk_uuid k') uuid = true -> k' = k.
+Proof.
+  intros Hnd Hf Hk' He. apply uuid_eqb_eq in He. apply find_trk_Some in Hf. destruct Hf as [Hk Hu].
+  apply (same_uuid_same_row trks); auto. congruence.
+Qed.
+
+Lemma reorged_loop_cons sc h uuid r t rej :
+  reorged_loop sc h (uuid :: r) t rej =
+  match find_trk (db_trks t) uuid with
+  | None => reorged_loop sc h r t rej
+  | Some k =>
+      let '(s, t1) := send_transaction sc t (t_dispute k) in
+      if is_confirmed s then Abort S_r_reorg_unreachable t1
+      else if status_rejected s then reorged_loop sc h r t1 (rej ++ [uuid])
+      else let '(s2, t2) := send_transaction sc t1 (t_penalty k) in
+           if status_rejected s2 then reorged_loop sc h r t2 (rej ++ [uuid])
+           else reorged_loop sc h r (set_trk_status t2 uuid h false) rej
+  end.
+Proof.
+  cbn [reorged_loop]. destruct (find_trk (db_trks t) uuid); [|reflexivity].
+  destruct (send_transaction sc t (t_dispute t0)) as [s t1]. destruct s; reflexivity.
+Qed.
+
+Lemma reorg_rows_cons_none e h uuid r trks :
+  find_trk trks uuid = None -> reorg_rows e h (uuid :: r) trks = reorg_rows e h r trks.
+Proof.
+  intros Hf. unfold reorg_rows. apply map_ext_in. intros k Hk. rewrite mem_uuid_cons.
+  destruct (uuid_eqb (trk_uuid k) uuid) eqn:E; [|reflexivity].
+  apply uuid_eqb_eq in E. exfalso. apply (find_trk_None _ _ Hf). rewrite <- E. apply in_map. exact Hk.
+Qed.
+
+Lemma reorg_rows_cons_rej e h uuid r trks k :
+  NoDup (map trk_uuid trks) -> find_trk trks uuid = Some k -> trk_rejected e k = true ->
+  reorg_rows e h (uuid :: r) trks = reorg_rows e h r trks.
+Proof.
+  intros Hnd Hf Hr. unfold reorg_rows. apply map_ext_in. intros k' Hk'. rewrite mem_uuid_cons.
+  destruct (uuid_eqb (trk_uuid k') uuid) eqn:E; [|reflexivity].
+  rewrite (row_of_find _ _ _ _ Hnd Hf Hk' E), Hr. rewrite !andb_false_r. reflexivity.
+Qed.
+
+Lemma reorg_rows_cons_acc e h uuid r trks k :
+  NoDup (map trk_uuid trks) -> find_trk trks uuid = Some k -> trk_rejected e k = false ->
+  reorg_rows e h r (map (status_upd uuid h false) trks) = reorg_rows e h (uuid :: r) trks.
+Proof.
+  intros Hnd Hf Hr. unfold reorg_rows. rewrite map_map. apply map_ext_in. intros k' Hk'. rewrite mem_uuid_cons.
+  unfold status_upd. destruct (uuid_eqb (trk_uuid k') uuid) eqn:E; [|reflexivity].
+  rewrite (row_of_find _ _ _ _ Hnd Hf Hk' E). rewrite restamp_uuid.
+  change (trk_rejected e (restamp k h false)) with (trk_rejected e k). rewrite Hr. cbn [orb negb andb].
+  destruct (mem_uuid (trk_uuid k) r); reflexivity.
+Qed.
+
+Lemma reorg_rejected_upd e trks uuid h c u :
+  reorg_rejected e (map (status_upd uuid h c) trks) u = reorg_rejected e trks u.
+Proof.
+  unfold reorg_rejected. rewrite find_trk_map by (intros k; apply status_upd_fields).
+  destruct (find_trk trks u) as [k|]; [|reflexivity]. cbn [option_map]. unfold trk_rejected.
+  destruct (status_upd_fields uuid h c k) as [_ [-> ->]]. reflexivity.
+Qed.
+
+Definition reorg_covered (e : N -> cstatus) (t' : tower) (k : trk) : Prop :=
+  is_confirmed (e (t_dispute k)) = false /\
+  aget (car_memo t') (t_dispute k) = Some (e (t_dispute k)) /\
+  (status_rejected (e (t_dispute k)) = false -> aget (car_memo t') (t_penalty k) = Some (e (t_penalty k))).
+
+Lemma reorged_loop_gen sc h e us : forall t rej0 rej t',
+  NoDup (map trk_uuid (db_trks t)) ->
+  (forall x, eff_status sc t x = e x) ->
+  reorged_loop sc h us t rej0 = Ok rej t' ->
+  rej = rej0 ++ filter (reorg_rejected e (db_trks t)) us /\
+  (exists m l, t' = with_carrier (set_db_trks t (reorg_rows e h us (db_trks t))) m l) /\
+  carried sc t t' /\
+  (forall uuid k, In uuid us -> find_trk (db_trks t) uuid = Some k -> reorg_covered e t' k).
+Proof.
+  induction us as [|uuid r IH]; intros t rej0 rej t' Hnd He E.
+  - cbn [reorged_loop] in E. inversion E; subst. split; [rewrite app_nil_r; reflexivity|]. split.
+    + exists (car_memo t'), (rpc_log t'). unfold reorg_rows. cbn [mem_uuid existsb andb]. rewrite map_id.
+      destruct t'; reflexivity.
+    + split; [apply carried_refl|intros ? ? []].
+  - rewrite reorged_loop_cons in E. destruct (find_trk (db_trks t) uuid) as [k|] eqn:Ef.
+    2:{ apply IH in E; [|exact Hnd|exact He]. destruct E as [Er [[m [l Et]] [Hc Hcov]]].
+        split; [|split; [|split]].
+        - rewrite Er. cbn [filter]. unfold reorg_rejected at 2. rewrite Ef. reflexivity.
+        - exists m, l. rewrite reorg_rows_cons_none by exact Ef. exact Et.
+        - exact Hc.
+        - intros u k [Hu|Hu] Hf; [congruence|]. eapply Hcov; eassumption. }
+    destruct (send_spec sc t (t_dispute k)) as [m1 [l1 [Es1 [Hc1 Hm1]]]]. rewrite Es1 in E. rewrite He in E, Hm1.
+    set (t1 := with_carrier t m1 l1) in *.
+    assert (He1 : forall x, eff_status sc t1 x = e x) by (intros x; rewrite (ca_eff _ _ _ Hc1); apply He).
+    destruct (is_confirmed (e (t_dispute k))) eqn:Ecf; [discriminate|].
+    destruct (status_rejected (e (t_dispute k))) eqn:Erd.
+    { apply IH in E; [|exact Hnd|exact He1]. destruct E as [Er [[m [l Et]] [Hc Hcov]]].
+      change (db_trks t1) with (db_trks t) in *.
+      assert (Hrej : trk_rejected e k = true) by (unfold trk_rejected; rewrite Erd; reflexivity).
+      split; [|split; [|split]].
+      - rewrite Er, <- app_assoc. cbn [filter List.app]. unfold reorg_rejected at 2. rewrite Ef, Hrej. reflexivity.
+      - exists m, l. rewrite (reorg_rows_cons_rej e h uuid r _ k Hnd Ef Hrej). exact Et.
+      - eapply carried_trans; eassumption.
+      - intros u k' [Hu|Hu] Hf; [|eapply Hcov; eassumption].
+        subst u. assert (k' = k) by congruence. subst k'. split; [exact Ecf|]. split.
+        + apply (ca_memo_mono _ _ _ Hc). exact Hm1.
+        + congruence. }
+    destruct (send_spec sc t1 (t_penalty k)) as [m2 [l2 [Es2 [Hc2 Hm2]]]]. rewrite Es2 in E. rewrite He1 in E, Hm2.
+    set (t2 := with_carrier t1 m2 l2) in *.
+    assert (He2 : forall x, eff_status sc t2 x = e x) by (intros x; rewrite (ca_eff _ _ _ Hc2); apply He1).
+    assert (Hm1' : aget (car_memo t2) (t_dispute k) = Some (e (t_dispute k))) by (apply (ca_memo_mono _ _ _ Hc2); exact Hm1).
+    assert (Hc12 : carried sc t t2) by (eapply carried_trans; eassumption).
+    destruct (status_rejected (e (t_penalty k))) eqn:Erp.
+    { apply IH in E; [|exact Hnd|exact He2]. destruct E as [Er [[m [l Et]] [Hc Hcov]]].
+      change (db_trks t2) with (db_trks t) in *.
+      assert (Hrej : trk_rejected e k = true) by (unfold trk_rejected; rewrite Erp; apply orb_true_r).
+      split; [|split; [|split]].
+      - rewrite Er, <- app_assoc. cbn [filter List.app]. unfold reorg_rejected at 2. rewrite Ef, Hrej. reflexivity.
+      - exists m, l. rewrite (reorg_rows_cons_rej e h uuid r _ k Hnd Ef Hrej). exact Et.
+      - eapply carried_trans; eassumption.
+      - intros u k' [Hu|Hu] Hf; [|eapply Hcov; eassumption].
+        subst u. assert (k' = k) by congruence. subst k'. split; [exact Ecf|]. split.
+        + apply (ca_memo_mono _ _ _ Hc). exact Hm1'.
+        + intros _. apply (ca_memo_mono _ _ _ Hc). exact Hm2. }
+    apply IH in E; [|apply nodup_set_status; exact Hnd|intros x; rewrite <- He2; apply eff_status_ext; reflexivity].
+    destruct E as [Er [[m [l Et]] [Hc Hcov]]].
+    rewrite db_trks_set_status in *. change (db_trks t2) with (db_trks t) in *.
+    assert (Hrej : trk_rejected e k = false) by (unfold trk_rejected; rewrite Erd, Erp; reflexivity).
+    assert (Hc' : carried sc t2 t').
+    { destruct Hc as [C1 C2 C3 C4 C5 C6]. constructor; auto. }
+    split; [|split; [|split]].
+    + rewrite Er. cbn [filter]. unfold reorg_rejected at 2. rewrite Ef, Hrej. f_equal.
+      apply filter_ext_in'. intros u _. apply reorg_rejected_upd.
+    + exists m, l. rewrite Et. rewrite (reorg_rows_cons_acc e h uuid r _ k Hnd Ef Hrej). reflexivity.
+    + eapply carried_trans; eassumption.
+    + intros u k' [Hu|Hu] Hf.
+      * subst u. assert (k' = k) by congruence. subst k'. split; [exact Ecf|]. split.
+        -- apply (ca_memo_mono _ _ _ Hc'). exact Hm1'.
+        -- intros _. apply (ca_memo_mono _ _ _ Hc'). exact Hm2.
+      * specialize (Hcov u (status_upd uuid h false k') Hu).
+        rewrite find_trk_map in Hcov by (intros k0; apply status_upd_fields). rewrite Hf in Hcov.
+        specialize (Hcov eq_refl). unfold reorg_covered in *.
+        destruct (status_upd_fields uuid h false k') as [_ [Hd Hp]]. rewrite Hd, Hp in Hcov. exact Hcov.
+Qed.
